@@ -1,43 +1,282 @@
+// C14 — local indexes are exactly undone when a block is removed.
+// For every block B of the alphabet on top of 0-2 prefix blocks, a real node (all local-index plugins
+// on) connects B and is then made to disconnect it by a heavier sibling block S (chain
+// reorganisation: disconnectBlock -> DelTxs -> EventDelBlock). What remains must equal a reference
+// node that never saw B: every local-index key family of the blockchain database and every public
+// local query.
 package main
 
 import (
+	"bytes"
+	"encoding/json"
 	"fmt"
 	"sort"
+	"strings"
 
+	"github.com/33cn/chain33/common/address"
 	clog "github.com/33cn/chain33/common/log"
+	"github.com/33cn/chain33/types"
 	"verif/vnode"
 	"verif/vnode/lidx"
+	"verif/vnode/treex"
 	"verif/vx"
 )
+
+type kase struct {
+	Prefix  int    `json:"prefix_blocks"`
+	Sibling int    `json:"sibling"`
+	Block   string `json:"block"`
+}
+
+var siblingNames = []string{"S0[G->E]", "S1[A->D,G->C]"}
+
+func siblingTxs(e *lidx.Env, i int) []*types.Transaction {
+	if i == 0 {
+		return []*types.Transaction{e.Transfer(lidx.G, lidx.E, 77)}
+	}
+	return []*types.Transaction{e.Transfer(lidx.A, lidx.D, 78), e.Transfer(lidx.G, lidx.C, 79)}
+}
+
+func hashesOf(cfg *types.Chain33Config, blocks ...*types.Block) (bh, sh, th [][]byte) {
+	for _, b := range blocks {
+		bh = append(bh, b.Hash(cfg))
+		sh = append(sh, b.StateHash)
+		for _, tx := range b.Txs {
+			th = append(th, tx.Hash())
+		}
+	}
+	return
+}
 
 func main() {
 	r := vx.Start("C14", "model_checking")
 	clog.SetLogLevel("crit")
 	r.QuietStderr()
+	r.Rule = "chain = 12-block trunk + k prefix blocks (k = 0,1,2) + block B from the alphabet (coins transfer to a known / never-seen / own address, several receivers, same pair twice, sender that is also receiver, transfer failing for lack of balance, none, manage by the super manager and without privilege, group of two succeeding and failing, mixtures; 1-3 transactions) x sibling S in {disjoint addresses, overlapping addresses incl. the never-seen one}; a fresh real node connects prefix and B, then receives the heavier S (reorganisation disconnects B and connects S); oracle: every key of the blockchain database outside hash-addressed block storage and the sequence log, and every public local query, equal to a node that received prefix and S only. state = (k, sibling, B, step); distinct = (B, k, sibling, which index families B had changed) classes"
+	r.Assume = []string{
+		"hash-addressed block storage (CHAIN-, TD:) and the sequence log (Seq:, HashToSeq:, LastSequence) legitimately keep the disconnected block and are not compared",
+		"a record left behind that only holds a zero counter and that no listed query can tell from an absent record is counted and noted, not reported",
+	}
+	var replay *kase
+	if raw, ok := r.Replaying(); ok {
+		replay = &kase{}
+		if err := json.Unmarshal(raw, replay); err != nil {
+			fmt.Println("REPLAY-ERROR", err)
+			r.Finish()
+		}
+	} else if r.Fork(8) {
+		r.Floors["executions"] = 60
+		r.Floors["distinct"] = 30
+		r.Floors["families_changed_by_B"] = 6
+		r.Finish()
+	}
 	env, err := lidx.NewEnv(lidx.Options{})
 	if err != nil {
 		fmt.Println("HARNESS-ERROR", err)
-		for _, op := range env.P.Snapshot()["blockchain"] {
-			fmt.Printf("%q = %d bytes\n", op.K, len(op.V))
-		}
+		r.Note("harness error: %v", err)
 		r.Finish()
 	}
-	fam := map[string]int{}
-	for _, op := range env.Snap["blockchain"] {
-		fam[vnode.Family(op.K)]++
+	defer env.P.Close()
+	if env.MVCCNote != "" {
+		r.Note("%s", env.MVCCNote)
+		r.Note("multi-version state is therefore not exercised in this run (the other plugins are)")
 	}
-	var fs []string
-	for f, n := range fam {
-		fs = append(fs, fmt.Sprintf("%s=%d", f, n))
+	r.Extra["mvcc_plugin_on"] = env.MVCC
+	cfg := env.Cfg
+	// prefix blocks, connected on the producer
+	prefix := []*types.Block{}
+	ptxs := [][]*types.Transaction{
+		{env.Transfer(lidx.A, lidx.D, 1), env.Transfer(lidx.G, lidx.B, 2*lidx.Fee)},
+		{env.Transfer(lidx.E, lidx.A, 3), env.None(lidx.A)},
 	}
-	sort.Strings(fs)
-	fmt.Println(fs)
-	for _, op := range env.Snap["blockchain"] {
-		f := vnode.Family(op.K)
-		if f != "CHAIN-" && f != ".-" {
-			fmt.Printf("%q = %d bytes\n", op.K, len(op.V))
+	parent := env.Tip()
+	for i, txs := range ptxs {
+		b, err := env.Make(parent, txs, treex.Bits[0])
+		if err == nil {
+			err = env.P.Deliver(vnode.Broadcast, b, "prefix")
+		}
+		if err != nil {
+			fmt.Println("HARNESS-ERROR prefix block", i, err)
+			r.Finish()
+		}
+		prefix = append(prefix, b)
+		parent = b
+	}
+	forkAt := func(k int) *types.Block {
+		if k == 0 {
+			return env.Tip()
+		}
+		return prefix[k-1]
+	}
+	addrs := append([]string{}, lidx.Addrs[:]...)
+	addrs = append(addrs, address.ExecAddress("none"), address.ExecAddress("manage"), address.ExecAddress("coins"))
+	specs := lidx.Alphabet()
+	item := 0
+	for k := 0; k <= 2; k++ {
+		for si := range siblingNames {
+			F := forkAt(k)
+			// work of this shard in this (k, sibling) group
+			var mine []lidx.Spec
+			for _, sp := range specs {
+				item++
+				if replay != nil {
+					if replay.Prefix == k && replay.Sibling == si && replay.Block == sp.Name {
+						mine = append(mine, sp)
+					}
+				} else if r.Mine(item) {
+					mine = append(mine, sp)
+				}
+			}
+			if len(mine) == 0 {
+				continue
+			}
+			S, err := env.Make(F, siblingTxs(env, si), treex.Bits[1])
+			if err != nil || len(S.Txs) == 0 {
+				fmt.Println("HARNESS-ERROR sibling", err)
+				r.Finish()
+			}
+			// reference: prefix + S only
+			ref := env.Fresh()
+			for _, p := range prefix[:k] {
+				if err := ref.Deliver(vnode.Broadcast, p, "peer"); err != nil {
+					r.Note("reference refused a prefix block: %v", err)
+				}
+			}
+			if err := ref.Deliver(vnode.Broadcast, S, "peer"); err != nil {
+				r.Note("reference refused the sibling: %v", err)
+			}
+			refDump := lidx.LocalDump(ref)
+			for _, sp := range mine {
+				if r.Expired("cases") {
+					break
+				}
+				kc := kase{Prefix: k, Sibling: si, Block: sp.Name}
+				name := fmt.Sprintf("prefix=%d sibling=%s B=%s", k, siblingNames[si], sp.Name)
+				B, err := env.Make(F, sp.Txs(env), treex.Bits[0])
+				if err != nil {
+					r.Note("%s: block could not be produced: %v", name, err)
+					r.Count("blocks_not_producible", 1)
+					continue
+				}
+				if len(B.Txs) == 0 {
+					r.Note("%s: no transaction survived production", name)
+					r.Count("blocks_not_producible", 1)
+					continue
+				}
+				blocks := append(append([]*types.Block{env.Tip()}, prefix[:k]...), B, S)
+				bh, sh, th := hashesOf(cfg, blocks...)
+				probe := lidx.Probe{Addrs: addrs, Txs: th, Blocks: bh, States: sh, Manage: []string{lidx.ManageKey}}
+				n := env.Fresh()
+				for _, p := range prefix[:k] {
+					if err := n.Deliver(vnode.Broadcast, p, "peer"); err != nil {
+						r.Note("%s: prefix block refused: %v", name, err)
+					}
+				}
+				before := lidx.LocalDump(n)
+				viewBefore := lidx.LocalView(n, env, probe)
+				if err := n.Deliver(vnode.Broadcast, B, "peer"); err != nil {
+					r.Note("%s: B refused: %v", name, err)
+					r.Count("blocks_refused", 1)
+					n.Close()
+					n.Forget()
+					continue
+				}
+				if lh, _ := n.Chain.ProcGetLastHeaderMsg(); lh == nil || !bytes.Equal(lh.Hash, B.Hash(cfg)) {
+					r.Note("%s: B is not the tip after its delivery", name)
+					n.Close()
+					n.Forget()
+					continue
+				}
+				withB := lidx.LocalDump(n)
+				viewWithB := lidx.LocalView(n, env, probe)
+				// what B changed (vacuity guard and the distinct class)
+				fams := map[string]bool{}
+				for _, d := range lidx.DiffDump(before, withB) {
+					fams[d.Family] = true
+					r.Seen("families_changed_by_B", d.Family)
+				}
+				qchanged := map[string]bool{}
+				for _, d := range viewWithB.Diff(viewBefore, 1000) {
+					qchanged[lidx.QueryClass(strings.SplitN(d, ":", 2)[0])] = true
+				}
+				for q := range qchanged {
+					r.Seen("queries_changed_by_B", q)
+				}
+				if err := n.Deliver(vnode.Broadcast, S, "peer"); err != nil {
+					r.Note("%s: sibling refused: %v", name, err)
+				}
+				if lh, _ := n.Chain.ProcGetLastHeaderMsg(); lh == nil || !bytes.Equal(lh.Hash, S.Hash(cfg)) {
+					r.Violate("no-reorganisation", name+": the heavier sibling did not become the tip", kc, nil)
+					n.Close()
+					n.Forget()
+					continue
+				}
+				after := lidx.LocalDump(n)
+				viewAfter := lidx.LocalView(n, env, probe)
+				viewRef := lidx.LocalView(ref, env, probe)
+				n.Close()
+				n.Forget()
+				r.Count("executions", 1)
+				r.Count("transitions", int64(k+2))
+				r.Seen("states", name)
+				var fl []string
+				for f := range fams {
+					fl = append(fl, f)
+				}
+				sort.Strings(fl)
+				r.Seen("distinct", fmt.Sprintf("%s -> %s", name, strings.Join(fl, " ")))
+				if replay != nil {
+					fmt.Printf("REPLAY %s: B height %d txs %d, tip %d\n", name, B.Height, len(B.Txs), viewAfter["x"] == "")
+					for _, d := range lidx.DiffDump(refDump, after) {
+						fmt.Println("  raw:", d.String())
+					}
+					for _, d := range viewAfter.Diff(viewRef, 1000) {
+						fmt.Println("  query:", d)
+					}
+					for _, d := range lidx.DiffDump(before, withB) {
+						fmt.Println("  B changed:", d.Kind, fmt.Sprintf("%q", d.Key))
+					}
+				}
+				// oracle 1: public queries
+				qd := viewAfter.Diff(viewRef, 8)
+				qclasses := map[string]bool{}
+				for _, d := range viewAfter.Diff(viewRef, 1000) {
+					qclasses[lidx.QueryClass(strings.SplitN(d, ":", 2)[0])] = true
+				}
+				for q := range qclasses {
+					k0 := ""
+					for _, d := range qd {
+						if lidx.QueryClass(strings.SplitN(d, ":", 2)[0]) == q {
+							k0 = strings.SplitN(d, ":", 2)[0]
+							break
+						}
+					}
+					r.Violate("query-not-restored:"+q, fmt.Sprintf("%s: after B was disconnected the query %s answers differently from a node that never saw B (%q vs %q); all differing: %s", name, k0, clip(viewAfter[k0]), clip(viewRef[k0]), strings.Join(qd, "; ")), kc, nil)
+				}
+				// oracle 2: raw local-index records
+				for _, d := range lidx.DiffDump(refDump, after) {
+					if d.Zero() {
+						r.Count("zero_counter_records_left_behind", 1)
+						r.Seen("zero_counter_families", d.Family)
+						if len(qclasses) == 0 {
+							r.Note("raw residue (not reported): after %s a zero-valued record stays under %s where the reference has none; no listed query can tell", sp.Name, d.Family)
+						}
+						continue
+					}
+					r.Violate("record-not-restored:"+d.Family+":"+d.Kind, fmt.Sprintf("%s: after B was disconnected the blockchain database differs from a node that never saw B: %s", name, d), kc, nil)
+				}
+				r.SampleN(6, map[string]interface{}{"case": kc, "families_changed_by_B": fl, "txs_in_B": len(B.Txs)})
+			}
+			ref.Close()
+			ref.Forget()
 		}
 	}
-	env.P.Close()
 	r.Finish()
+}
+
+func clip(s string) string {
+	if len(s) > 60 {
+		return s[:60] + "..."
+	}
+	return s
 }
